@@ -125,10 +125,29 @@ class Engine:
             edits = _gen_include_edits(e, files, proj, docnames) if include_only else _gen_edits(
                 e, files, proj, docnames)
 
+            cfg2 = None
+            if e.random() < 0.3:
+                # the configuration changes between the two builds (Sphinx then re-reads every document): the
+                # re-read documents must be parsed with the NEW configuration
+                cfg2 = dict(cfg)
+                how = e.choice(["subs", "anchors", "ext", "footnotes"])
+                if how == "subs":
+                    cfg2["substitutions"] = {**(cfg.get("substitutions") or {}), "key1": "changed *value*", "key2": 99}
+                    if "substitution" not in cfg2["enable_extensions"]:
+                        cfg2["enable_extensions"] = sorted(cfg2["enable_extensions"] + ["substitution"])
+                elif how == "anchors":
+                    cfg2["heading_anchors"] = 0 if cfg.get("heading_anchors") else 3
+                elif how == "ext":
+                    ext = set(cfg2["enable_extensions"])
+                    for x in ("deflist", "dollarmath", "colon_fence"):
+                        ext.symmetric_difference_update({x})
+                    cfg2["enable_extensions"] = sorted(ext)
+                else:
+                    cfg2["footnote_sort"] = not cfg.get("footnote_sort", True)
             for _ in range(e.choice([1, 2])):
                 nproc = e.randint(2, 5)
                 nchunks = e.randint(2, max(2, min(len(docnames), 5)))
-                variants.append({"kind": "incremental", "edits": edits, "nproc": nproc,
+                variants.append({"kind": "incremental", "edits": edits, "cfg2": cfg2, "nproc": nproc,
                                  "read_chunks": {d: e.randrange(nchunks) for d in docnames},
                                  "write_chunks": {d: e.randrange(e.randint(1, 3)) for d in docnames},
                                  "sched": [e.randrange(0, 7) for _ in range(4 * len(docnames) + 8)]})
@@ -173,21 +192,24 @@ class Engine:
             for vi, var in enumerate(plan["variants"]):
                 ref = serial_ref
                 if var["kind"] == "incremental":
-                    ekey = sha(repr(sorted(var["edits"].items())))[:16]
+                    ekey = sha(repr(sorted(var["edits"].items())) + repr(var.get("cfg2")))[:16]
                     if ekey not in inc_refs:
                         st, r2 = proc.run_in_child(
-                            _build, (plan, root, {"kind": "incremental", "edits": var["edits"], "second": "serial"},
-                                     f"iref{vi}"), timeout=600)
+                            _build, (plan, root, {"kind": "incremental", "edits": var["edits"], "second": "serial",
+                                                  "cfg2": var.get("cfg2")}, f"iref{vi}"), timeout=600)
                         _restore_tree(root, plan["files"], var["edits"])
                         if st == "exc":
                             raise RuntimeError(f"incremental reference build failed in harness code: {r2}")
                         inc_refs[ekey] = r2
                         count("reference_builds_incremental")
+                        if var.get("cfg2"):
+                            count("probe_incremental_build_with_changed_configuration")
                         # I-INC: the unresolved doctree of every document after the incremental rebuild equals the one
                         # a fresh full build of the edited tree produces (a document's own doctree depends only on
                         # its text, path, configuration and included files - not on what was built before)
                         _apply_edits(root, var["edits"])
-                        st, fr = proc.run_in_child(_build, (plan, root, {"kind": "serial", "doctrees": True},
+                        st, fr = proc.run_in_child(_build, (plan, root, {"kind": "serial", "doctrees": True,
+                                                                         "cfg2": var.get("cfg2")},
                                                             f"fresh{vi}"), timeout=600)
                         _restore_tree(root, plan["files"], var["edits"])
                         if st == "exc":
@@ -372,9 +394,16 @@ class Engine:
 # ---------------------------------------------------------------------- one build (in a pristine child)
 
 
-def _build(plan, root, var, tag):
-    conf = {f"myst_{k}": v for k, v in plan["cfg"].items()
+def _conf(cfg: dict) -> dict:
+    return {f"myst_{k}": v for k, v in cfg.items()
             if k not in ("suppress_warnings", "highlight_code_blocks", "inventories")}
+
+
+def _build(plan, root, var, tag):
+    conf = _conf(plan["cfg"])
+    conf2 = _conf(var["cfg2"]) if var.get("cfg2") else conf
+    if var["kind"] == "serial" and var.get("cfg2"):
+        conf = conf2  # the fresh build of the edited tree uses the second configuration
     kind = var["kind"]
     events: list = []
     sched = None
@@ -428,7 +457,7 @@ def _build(plan, root, var, tag):
             sched = partasks.Scheduler(var)
             partasks.install(sched)
             parallel = max(2, var["nproc"])
-        r = sut.sphinx_build(root, tag, root, conf, builder=plan["builder"], parallel=parallel, hooks=hooks,
+        r = sut.sphinx_build(root, tag, root, conf2, builder=plan["builder"], parallel=parallel, hooks=hooks,
                              incremental=True, collect_doctrees=var.get("second") == "serial")
         reread = sorted(seen)
     else:
